@@ -19,7 +19,7 @@ from mc.ref import report as refreport
 from mc.run import Stats, explore
 
 ASSUME = [
-    "task reports only; columns from {id, name, start, end, priority, cost}; quick: ordered selections of <= 2 columns, thorough: <= 3",
+    "projects: 8 of 3-6 tasks (containers, unschedulable, team, ALAP, shared short ids, rates) + one task per day across the 2024/25 year end; task reports only; columns from {id, name, start, end, priority, cost}; quick: ordered selections of <= 2 columns, thorough: <= 3",
     "effective time format: the report's `timeformat`, else the project's, else %Y-%m-%d",
     "cost = sum over the task's ledger entries of rate x booked seconds / 3600, two decimals, empty when zero; container cost cells are not judged",
     "rows: every task in declaration order; leaves only when `leaftasksonly true`; unscheduled tasks have empty start/end",
@@ -45,6 +45,9 @@ def projects():
                                          {"id": "ops", "children": [T("deploy", 30, "r3"), {"id": "hand", "children": [T("docs", 20, "r3")]}]}]})
     ps.append({"resources": R, "tasks": [{"id": "web", "children": [T("design", 300), T("code", 60, "r2")]},
                                          {"id": "app", "children": [T("design", 180), T("code", 90, "r2", deps=["!design"])]}, T("design", 30, "r3")]})
+    # one task per calendar day across a year end (dates whose ISO week-year / week number differ from the calendar year's)
+    ps.append({"start": "2024-12-27", "resources": [{"id": "r1", "rate": 8.0, "hours": [("mon - sun", ["9:00 - 17:00"])]}],
+               "tasks": [{"id": "g", "children": [T(f"d{i}", 480, **({"deps": [f"!d{i - 1}"]} if i else {})) for i in range(8)]}]})
     return ps
 
 
